@@ -58,6 +58,11 @@ C02, whose statement they break directly.
 
 ''' % (len(rows), n_first_miss) + "\n".join(out) + '''
 
+One further change was written by me only to try the low-rank window tie added last (at a switch the
+estimator drops its NEWEST instead of its oldest draws: all counts stay right); `./check C09` reports
+it with a failing input ("position 0 of its window is not the state of draw 4").  It is not kept as a
+seeded change because it does not come from an independent agent.
+
 Checks that were run against a change of another property and stayed silent, as they should:
 C01 on C17-2, C07 on C06-1, C05 on C16-2 and C02-4, C13 on C05-2, C18 on C06-4 / C05-6 / C17-6,
 C08 on C09-3.
